@@ -29,7 +29,7 @@ s = s[:a] + head8 + "\n".join(rows) + s[b:]
 # ---- section 9 table
 rows = []
 n = caught = 0
-for d in sorted(glob.glob(f"{V}/seeded/S*")):
+for d in sorted(glob.glob(f"{V}/seeded/S*"), key=lambda x: int(os.path.basename(x)[1:].split("-")[0])):
     m = json.load(open(d + "/meta.json"))
     n += 1
     if m["caught_by"]:
